@@ -55,7 +55,8 @@ finally:
             os.remove(os.path.join(bind, d))
 dst = os.path.join(ROOT, "seeded", "harmless", tag)
 os.makedirs(dst, exist_ok=True)
-shutil.copy(patch, os.path.join(dst, "patch.diff"))
+if os.path.abspath(patch) != os.path.abspath(os.path.join(dst, "patch.diff")):
+    shutil.copy(patch, os.path.join(dst, "patch.diff"))
 if notes and os.path.exists(notes):
     meta["author_notes"] = open(notes).read()[:2500]
 json.dump(meta, open(os.path.join(dst, "meta.json"), "w"), indent=1)
